@@ -72,7 +72,8 @@ def run(tape):
         for i in range(nops):
             if world.violations:
                 break
-            op = tape.choice(["env_add", "env_switch", "env_switch", "env_delete", "p_create", "p_create", "p_select", "p_select_any", "p_update", "p_update", "p_delete"], "op")
+            op = tape.choice(["env_add", "env_switch", "env_switch", "env_delete", "p_create", "p_create", "p_select", "p_select_any", "p_update", "p_update", "p_delete",
+                              "p_rename_elsewhere", "p_rename_elsewhere", "p_create_quiet", "env_switch_slash"], "op")
             cm, es, auth = services()
             env = es.get_current_environment().api_url
             cur_env[0] = env
@@ -89,6 +90,36 @@ def run(tape):
                     world.probe("switch-environment")
                 except ValueError:
                     pass
+            elif op == "env_switch_slash":
+                # the URL as a user may type it: with a trailing slash. Either it is refused, or a KNOWN environment becomes current
+                url = tape.choice(sorted(known_envs - {DEFAULT}) or ENVS, "env") + "/"
+                ops.append(f"env_switch {url}")
+                world.probe("switch-with-trailing-slash")
+                try:
+                    es.switch_environment(url)
+                except ValueError:
+                    pass
+            elif op == "p_rename_elsewhere":
+                # a profile of ANOTHER environment is renamed (token refresh / key provisioning go through update_profile with
+                # whatever profile object they hold)
+                there = sorted(k for k in profiles if k[0] != env)
+                if not there:
+                    continue
+                k = tape.choice(there, "which.else")
+                prof = cm.get_profile(k[1], k[0])
+                if prof is None:
+                    continue
+                new = tape.choice(NAMES, "newname.else")
+                if (k[0], new) in profiles:
+                    continue
+                ops.append(f"p_rename_elsewhere {k}->{new}")
+                world.probe("renamed-profile-of-other-environment")
+                prof.name = new
+                try:
+                    cm.update_profile(prof)
+                except Exception:  # noqa: BLE001
+                    continue
+                profiles[(k[0], new)] = profiles.pop(k)
             elif op == "env_delete":
                 url = tape.choice(ENVS + [DEFAULT], "env")
                 ops.append(f"env_delete {url}")
@@ -106,6 +137,21 @@ def run(tape):
                     cm.set_settings_current_profile(a.name)      # what create_profile_from_token does (its auto-name is derived from the token)
                     profiles[(env, name)] = a.id
                     picked.add((env, a.id))
+                except ValueError:
+                    pass
+            elif op == "p_create_quiet":
+                # a profile stored without being made the active one (ConfigManager.create_profile alone)
+                # ... in any known environment: one created while its environment is current counts as "created while current"
+                name = tape.choice(NAMES, "name")
+                tenv = tape.choice(sorted(known_envs | {DEFAULT}), "quiet.env")
+                ops.append(f"p_create_quiet {name}@{tenv}")
+                try:
+                    a = cm.create_profile(name, tenv, "proj1", api_key="q" + name)
+                    profiles[(tenv, name)] = a.id
+                    if tenv == env:
+                        picked.add((env, a.id))
+                    else:
+                        world.probe("profile-created-in-non-current-environment")
                 except ValueError:
                     pass
             elif op == "p_select":
